@@ -58,6 +58,10 @@ def specKey (k : Node) (s : Seg) : KeyR :=
        | .err => .perr)
   | none => .unspec
 
+/-- The value a (possibly pointer-typed) node's value denotes once the pointer is followed. -/
+def targetOf (isPtr : Bool) (v : Val) : Val :=
+  if isPtr then (match v with | .ptr w => w | w => w) else v
+
 /-- Native navigation: struct field by name, map entry by parsed key, slice element by parsed index,
 through non-nil pointers. -/
 def navV (via : Bool) (n : Node) (v : Val) (p : List Seg) : NavR :=
@@ -67,8 +71,7 @@ def navV (via : Bool) (n : Node) (v : Val) (p : List Seg) : NavR :=
     -- a path that continues past a scalar, string or bytes element is outside the property
     if n.isLeaf then .unspec else
     if n.ptr && v.isNilPtr then .miss via else
-    let w := if n.ptr then (match v with | .ptr w => w | w => w) else v
-    match n, w with
+    match n, targetOf n.ptr v with
     | .basic _, _ => .unspec
     | .struct _ chld, .struct fs =>
       (match findField chld fs s.text with
